@@ -4,6 +4,9 @@
        <name hex>:<mtime ms>:<content hex>;...        (sorted by name hex)
      case <L> <N> <opts> <gran ms> <base> <suffix> <t0> <tz min east>   fresh directory, sink constructed at t0
      w <payload> [<QtMsgType 0..4, default 4 = info>] | adv <ms> | restart | put <name> <bytes>
+     w <raw> <type> <fmt mode> <fmt> [<age>]   long form: fmt mode 0 = no formatted text (the raw text is shown), 1 = the
+        formatted text <fmt> is set ("-" = the empty string) and shown: the record is [shown_text raw fmt] (the age of a
+        message is a dimension of the harness-only probes, the model dates a record by the wall clock)
    mode "oracle": evaluates the extracted boolean oracles on a snapshot reconstructed by the check
      cfg <L> <N> <opts> <base> <suffix>                   (also clears the accumulated history)
      h <recs>                                             append records to the history, prints "ok"
@@ -75,6 +78,9 @@ let () =
          w := w0 !cfg (z_of_int (int_of_string t0))
        | ["w"; p] -> w := step src_shape !cfg !w (Write (TInfo, unhex p))
        | ["w"; p; ty] -> w := step src_shape !cfg !w (Write (mtype_of (int_of_string ty), unhex p))
+       | "w" :: p :: ty :: mode :: f :: _ ->
+         let fmt = if mode = "1" then Some (unhex f) else None in
+         w := step src_shape !cfg !w (writeMsg (mtype_of (int_of_string ty)) (unhex p) fmt)
        | ["adv"; d] -> w := step src_shape !cfg !w (Advance (z_of_int (int_of_string d)))
        | ["restart"] -> w := step src_shape !cfg !w Restart
        | ["put"; n; b] -> w := step src_shape !cfg !w (PutForeign (unhex n, unhex b))
